@@ -24,6 +24,8 @@ pub fn registry() -> Vec<Box<dyn Scenario>> {
         Box::new(Truthful),
         Box::new(Views),
         Box::new(PayloadCut),
+        Box::new(RdhWalk),
+        Box::new(FsmWalk),
     ]
 }
 
@@ -1634,5 +1636,155 @@ impl Scenario for PayloadCut {
                 }
             }
         }
+    }
+}
+
+// ------------------------------------------------------------------------------------------------
+// C10
+// ------------------------------------------------------------------------------------------------
+pub struct RdhWalk;
+
+impl Scenario for RdhWalk {
+    fn property(&self) -> &'static str {
+        "C10"
+    }
+    fn n_cases(&self, tier: Tier) -> u64 {
+        match tier {
+            Tier::Quick => 3_000,
+            Tier::Thorough => 150_000,
+        }
+    }
+    fn rule(&self) -> String {
+        "case = 1..8 links, each an RDH-only packet history that starts at an HBF start (pages 0 and 1 clean) and \
+         then walks HBFs of 2..6 pages; from the third RDH on, faults are injected with a per-case rate (0, 5, 20, \
+         50 %): single-bit flips over the 512 header bits (framing and link fields excluded), boundary values (BC \
+         0xdea/0xdeb/0xdec, stave 47/48/63, layer 6/7, stop bit 0/1/2/255, data format 0..3, DW 0..2, trigger spare \
+         bits / zero, detector-field bits, system ID, version), page-counter jumps, stop-bit toggles, orbit kept after \
+         a stop, orbit / trigger / FEE change inside an HBF, packet loss, duplication and reordering; links merged \
+         contiguously, round-robin or randomly; modes check sanity / check all x target none / its; histories of up \
+         to thousands of RDHs per link in the thorough tier; run through the whole pipeline under seeded schedules. \
+         Oracle (exact, both directions): [E10] at an RDH's offset iff the documented sanity predicate fails \
+         (relative to the first version the link saw; system ID only with target its); [E11] iff the documented \
+         running automaton flags it (check all only; never in check sanity); nothing else is reported. \
+         Non-trivial: >= 3 RDHs and >= 4 threads."
+            .into()
+    }
+    fn make(&self, seed: u64, case: u64, tier: Tier) -> Trial {
+        let mut rng = Rng::new(seed);
+        let n_links = rng.range(1, 8) as usize;
+        let hbfs = match (tier, rng.below(10)) {
+            (Tier::Thorough, 0) => 600,
+            (_, 0 | 1) => 40,
+            _ => 6,
+        };
+        let p = *rng.pick(&[0u64, 50, 200, 500]);
+        let h = itsgen::rdhwalk::gen_history(&mut rng, n_links, hbfs, p);
+        let mode_i = [0usize, 1, 2, 3][(case % 4) as usize];
+        let its = mode_i == 1 || mode_i == 3;
+        let running = mode_i >= 2;
+        let (e10, e11) = h.expected(its);
+        let im = pick_input_mode(&mut rng);
+        let mut spec = specgen::spec(im, &s(CHECK_MODES[mode_i]), h.bytes());
+        if rng.chance(3, 4) {
+            swarm_schedule(&mut spec, &mut rng, 300 + h.wire.len() as u64 * 10);
+        }
+        if rng.chance(1, 3) {
+            benign_io(&mut spec, &mut rng);
+        }
+        Trial::RdhWalk { spec, e10, e11, running, label: format!("{} | fault rate {}%", CHECK_MODES[mode_i].join(" "), p / 10) }
+    }
+}
+
+// ------------------------------------------------------------------------------------------------
+// C09
+// ------------------------------------------------------------------------------------------------
+pub struct FsmWalk;
+
+impl Scenario for FsmWalk {
+    fn property(&self) -> &'static str {
+        "C09"
+    }
+    fn n_cases(&self, tier: Tier) -> u64 {
+        match tier {
+            Tier::Quick => 4_000,
+            Tier::Thorough => 400_000,
+        }
+    }
+    fn rule(&self) -> String {
+        "case = a seeded walk of 20..600 words over the alphabet {IHW, TDH x no_data x continuation, TDT x \
+         packet_done, DDW0, CDW, inner / outer data word, unknown ID} with arbitrary other bits, cut into packets \
+         of one link. The next word is drawn legal for the diagram's current state with probability 1-p and \
+         illegal with probability p (p in 0, 5, 15, 40 % per case), biased so that every (state, illegal word kind) \
+         pair recurs. The real ItsPayloadFsmContinuous::advance (state read through the guarded verif_state_id \
+         accessor) and the real CdpRunningValidator::check run in-process on the harness thread. Oracle: step-by-step \
+         refinement of the diagram model transcribed from doc/ITS_payload_fsm_continuous_mode.puml (DESIGN.md appendix \
+         C): same classification, same successor for every legal word; an illegal word yields, at that word's \
+         offset, [E30]/[E40] in single-successor states and [E990]/[E991]/[E992] in choice states; a legal word is \
+         never reported as unrecognised. Coverage: `distinct_interleavings_trace_hash` counts distinct (implementation \
+         state, diagram state, word kind, legal?) tuples reached out of 8 x 7 = 56. No scheduler is involved (the FSM \
+         is sequential and owned by one validator thread); `executions` is 0 because nothing is forked. \
+         Non-trivial: >= 2 words; distinct: hash of the word sequence."
+            .into()
+    }
+    fn assumptions(&self) -> Vec<String> {
+        vec![
+            "the diagram model treats the Data state as the choice {data word, CDW, TDT} (DESIGN.md appendix C); the successor after an illegal word is not prescribed by the diagram and is taken from the implementation".into(),
+        ]
+    }
+    fn make(&self, seed: u64, _case: u64, _tier: Tier) -> Trial {
+        use itsgen::models::{diagram_step, St, Step};
+        let mut rng = Rng::new(seed);
+        let n = rng.range(20, 600) as usize;
+        let p_illegal = *rng.pick(&[0u64, 50, 150, 400]);
+        let mut words: Vec<u8> = Vec::with_capacity(n * 10);
+        let mut st = St::Ihw;
+        const IDS: [u8; 12] = [0xE0, 0xE8, 0xE8, 0xF0, 0xF0, 0xE4, 0xF8, 0x20, 0x28, 0x43, 0x5E, 0x4B];
+        for _ in 0..n {
+            let want_illegal = rng.chance(p_illegal, 1000);
+            let mut w = [0u8; 10];
+            let mut tries = 0;
+            loop {
+                rng.fill(&mut w);
+                w[9] = if rng.chance(1, 8) {
+                    // unknown ID
+                    loop {
+                        let id = rng.below(256) as u8;
+                        if itsgen::words::kind_of_id(id) == itsgen::words::Kind::Unknown {
+                            break id;
+                        }
+                    }
+                } else {
+                    *rng.pick(&IDS)
+                };
+                let legal = matches!(diagram_step(st, &w), Step::Legal(..));
+                tries += 1;
+                if legal != want_illegal || tries > 40 {
+                    break;
+                }
+            }
+            words.extend_from_slice(&w);
+            st = match diagram_step(st, &w) {
+                Step::Legal(_, next) => next,
+                // after an illegal word the implementation decides; approximate for generation only
+                Step::Illegal(_) => match st {
+                    St::Ihw => St::Tdh,
+                    St::CIhw => St::CTdh,
+                    St::Tdh => St::Data,
+                    St::CTdh => St::CData,
+                    St::AfterNoData => St::Data,
+                    St::AfterTdt => St::Ihw,
+                    x => x,
+                },
+            };
+        }
+        // cut into packets
+        let mut packet_lens = Vec::new();
+        let mut left = n as u32;
+        while left > 0 {
+            let k = (rng.range(1, 60) as u32).min(left);
+            packet_lens.push(k);
+            left -= k;
+        }
+        Trial::FsmWalk { words, packet_lens, label: format!("illegal rate {}%", p_illegal / 10) }
     }
 }
